@@ -260,7 +260,8 @@ func (m *multiStreamListener) Acquire() (StreamListener, error) {
 				case acceptCh <- acceptResponse{conn, err}:
 				case <-doneCh:
 					// Every user has closed: nobody is left to hand the connection to.
-					if conn != nil {
+					// (After a failed accept `conn` holds a nil *net.TCPConn: only `err` tells.)
+					if err == nil {
 						conn.Close()
 					}
 					close(acceptCh)
